@@ -244,6 +244,44 @@ pub fn run(scenario: &str, input: &Value) -> Option<(bool, Value)> {
             let ok = some.len() == 1 && outs.last().unwrap().is_some() && *some[0] == original && a.pending_count() == 0;
             Some((ok, json!({"returned": some, "pending_after": a.pending_count()})))
         }
+        // C09 (witness search): like "fragments" but order-agnostic on concatenation (the order is a recorded known
+        // finding) and with stray continuation ids ({"stray": id}) injected; checks completion timing only:
+        // Some exactly at the last missing legal fragment, never before, with all data present, nothing left pending
+        "fragments_stray" => {
+            use edp_client::fragmentation::FragmentAssembler;
+            let original: Vec<u8> = input["original"].as_array().unwrap().iter().map(|x| x.as_u64().unwrap() as u8).collect();
+            let cuts: Vec<usize> = input["cuts"].as_array().unwrap().iter().map(|x| x.as_u64().unwrap() as usize).collect();
+            let mut pieces = Vec::new();
+            let mut last = 0;
+            for c in cuts.iter().chain(std::iter::once(&original.len())) { pieces.push(original[last..*c].to_vec()); last = *c; }
+            let n = pieces.len() as u64;
+            let mut a = FragmentAssembler::new();
+            let mut seen = std::collections::BTreeSet::new();
+            let mut ok = true;
+            let mut trace = Vec::new();
+            for step in input["arrival"].as_array().unwrap() {
+                let r = if let Some(id) = step.get("stray").and_then(|v| v.as_u64()) {
+                    a.add_fragment(7u64, id, vec![0xEE])
+                } else {
+                    let k = step.as_u64().unwrap() as usize;
+                    seen.insert(k);
+                    let id = n - k as u64;
+                    if k == 0 { a.start_fragment(7u64, id, None, pieces[k].clone()) } else { a.add_fragment(7u64, id, pieces[k].clone()) }
+                };
+                let complete = seen.len() == pieces.len();
+                match &r {
+                    Some(v) => {
+                        let mut sorted_got = v.clone(); sorted_got.sort();
+                        let mut sorted_want = original.clone(); sorted_want.sort();
+                        ok &= complete && sorted_got == sorted_want;
+                        seen.clear();
+                    }
+                    None => { ok &= !complete; }
+                }
+                trace.push(r.map(|v| v.len() as i64).unwrap_or(-1));
+            }
+            Some((ok, json!({"returned_lengths": trace, "pending_after": a.pending_count()})))
+        }
         // C03: an encoding of an atom decodes to exactly that atom (text given as UTF-8)
         "decode_atom" => {
             let data = gen_bytes(input);
